@@ -185,11 +185,25 @@ def find_stmt(fnode, pred, nth=0):
 def for_over(fnode, iter_text, nth=0):
     """The n-th `for` whose iterated expression unparses to iter_text
     (whitespace-insensitive)."""
+    import re
     want = iter_text.replace(' ', '')
-    return find_stmt(
-        fnode,
-        lambda n: isinstance(n, ast.For)
-        and ast.unparse(n.iter).replace(' ', '') == want, nth)
+    try:
+        return find_stmt(
+            fnode,
+            lambda n: isinstance(n, ast.For)
+            and ast.unparse(n.iter).replace(' ', '') == want, nth)
+    except Unresolved:
+        # the same source under a different wrapper (enumerate(x, 1), reversed(x), list(x), sorted(x, key=...)):
+        # the loop whose iterated expression mentions the same attribute path and nothing of another one
+        m = re.search(r'[A-Za-z_][A-Za-z_0-9]*(\.[A-Za-z_][A-Za-z_0-9]*)+', want)
+        if not m:
+            raise
+        path = m.group(0)
+        return find_stmt(
+            fnode,
+            lambda n: isinstance(n, ast.For)
+            and re.search(r'(?<![A-Za-z_0-9.])' + re.escape(path) + r'(?![A-Za-z_0-9])', ast.unparse(n.iter).replace(' ', '')) is not None
+            and ast.unparse(n.iter).replace(' ', '').count('args.') <= 1, nth)
 
 
 def mutate(fnode, transformer):
